@@ -207,7 +207,15 @@ class C12(Spec):
     theorems = ["C12_subst_bound_partial", "C12_subst_size_bound_partial", "C12_subst_default_partial", "C12_unresolved_is_error",
                 "C12_non_integer_is_error", "C12_negative_size_is_error", "C12_fixed_negative_size_reference_is_error",
                 "C12_refuted_reference_in_0_max_range_not_folded", "C12_refuted_reference_in_size_0_max_extensible_accepted",
-                "C12_refuted_cyclic_import_diverges"]
+                "C12_refuted_cyclic_import_diverges",
+                "C12_subst_type", "C12_subst_definition", "C12_subst_module", "C12_subst_all",
+                "C12_literalize_type", "C12_literalize_module", "C12_literalize_all", "C12_literalize_is_abstraction",
+                "C12_literalize_complete_type", "C12_literalize_complete_module",
+                "C12_unresolved_is_error_type", "C12_unresolved_is_error_module", "C12_unresolved_is_error_all",
+                "C12_non_integer_is_error_type", "C12_non_integer_is_error_module", "C12_non_integer_is_error_all",
+                "C12_order_irrelevant_module", "C12_order_irrelevant_all", "C12_order_irrelevant_all_error",
+                "C12_subst_nonvacuous", "C12_error_nonvacuous", "C12_order_nonvacuous",
+                "C12_refuted_load_order_matters_with_duplicate_module_names"]
     MODEL_OPS = {3302, 3304, 3312, 3314}
     builds = [("default", "dev"), ("default", "release")]
     level_text = ("A hand-written Gallina model of ResolveScope / MultiModuleResolver (local first, then the first import listing "
